@@ -117,7 +117,7 @@ class C10(Prop):
         for ln in lines:
             if ln["deps"]:
                 for rep in range(2):
-                    gens.append({"kind": "resolve", "tree": place(ln["deps"], rnd), "alias": rep == 1})
+                    gens.append({"kind": "resolve", "tree": place(ln["deps"], rnd), "alias": rep == 1, "doc": len(gens) % 3 == 0})
             else:
                 gens.append({"kind": "def", "def": ln["def"]})
         return gens
@@ -130,7 +130,7 @@ class C10(Prop):
             for _ in range(rnd.randint(0, 12)):
                 ver = [rnd.choice([0, 1, 2, 9, 10, 11]) for _ in range(rnd.randint(1, 4))]
                 deps.append({"name": rnd.choice(names), "ver": ver, "pl": rnd.choice("pqr")})
-            gens.append({"kind": "resolve", "tree": place(deps, rnd), "alias": rnd.random() < 0.4})
+            gens.append({"kind": "resolve", "tree": place(deps, rnd), "alias": rnd.random() < 0.4, "doc": rnd.random() < 0.4})
         return gens
 
     def execute(self, g):
@@ -140,12 +140,29 @@ class C10(Prop):
             got = t.get_dependencies()
             # the same forest as the content of a document (the only tag among the top-level items - if there is exactly
             # one - being the caller's own <body>): what is reported does not depend on where the objects sit
+            if not g.get("doc", True):
+                # (the document views are taken for every third case: they triple the cost of a case)
+                return {"k": "resolve", "tree": g["tree"], "got": proj(got), "gotDoc": proj(got), "gotDocGrown": proj(got),
+                        "gotNoDedup": proj(t.get_dependencies(dedup=False)),
+                        "gotTagifiedNoDedup": proj(t.tagify().get_dependencies(dedup=False)),
+                        "gotRender": proj(t.render()["dependencies"]),
+                        "gotTwice": proj(H.TagList(*got).get_dependencies()), "gen": g}
             top = [build(c, H, {} if g.get("alias") else None) for c in g["tree"]["c"]]
             tag_idx = [j for j, c in enumerate(g["tree"]["c"]) if c["k"] == "t"]
             if len(tag_idx) == 1:
                 top[tag_idx[0]] = H.tags.body(*top[tag_idx[0]].children)
             got_doc = H.HTMLDocument(*top).render()["dependencies"] if top else []
-            return {"k": "resolve", "tree": g["tree"], "got": proj(got), "gotDoc": proj(got_doc),
+            # a document rendered BEFORE the tree it holds was complete: the rest arrives through the root tag's own
+            # append, then the same document object is rendered again
+            kids_all = [build(c, H, {} if g.get("alias") else None) for c in g["tree"]["c"]]
+            cut = len(kids_all) // 2
+            root = H.tags.div(*kids_all[:cut])
+            doc2 = H.HTMLDocument(root)
+            doc2.render()
+            if kids_all[cut:]:
+                root.append(*kids_all[cut:])
+            got_grown = doc2.render()["dependencies"]
+            return {"k": "resolve", "tree": g["tree"], "got": proj(got), "gotDoc": proj(got_doc), "gotDocGrown": proj(got_grown),
                     "gotNoDedup": proj(t.get_dependencies(dedup=False)),
                     "gotTagifiedNoDedup": proj(t.tagify().get_dependencies(dedup=False)),
                     "gotRender": proj(t.render()["dependencies"]),
